@@ -282,6 +282,41 @@ def tlaps_check(r, module):
     shutil.rmtree(wd, ignore_errors=True)
 
 
+def apalache_inductive(r, module, cinit="ConstInit", init="Init", indinit="IndInit", inv="IndInv", safety="Safety",
+                       neg_next=None):
+    """Unbounded safety by an inductive invariant discharged with Apalache: Init => IndInv (length 0),
+    IndInv /\\ Next => IndInv' (length 1 from IndInit), IndInv => Safety (length 0 from IndInit). With neg_next, the
+    same induction step over a deliberately wrong next-state relation must FAIL (non-vacuity). A failure is a defect
+    of the machinery (exit 2); an absent tool only a note."""
+    if shutil.which("apalache-mc") is None:
+        r.notes.append("apalache-mc not installed: %s not re-checked" % module)
+        return
+    wd = os.path.join(r.dir, "apalache-" + module.replace(".tla", ""))
+    os.makedirs(wd, exist_ok=True)
+    shutil.copy(os.path.join(SPEC, module), wd)
+    env = dict(os.environ)
+    env["JAVA_TOOL_OPTIONS"] = "-Djava.io.tmpdir=" + wd
+    steps = [("base", init, inv, 0, "Next", True), ("step", indinit, inv, 1, "Next", True),
+             ("implies", indinit, safety, 0, "Next", True)]
+    if neg_next:
+        steps.append(("negative", indinit, inv, 1, neg_next, False))
+    res = {}
+    for name, i, p, n, nxt, want_ok in steps:
+        rc, out = run(["apalache-mc", "check", "--cinit=" + cinit, "--init=" + i, "--next=" + nxt, "--inv=" + p,
+                       "--length=%d" % n, "--out-dir=" + os.path.join(wd, "out"), "--run-dir=" + os.path.join(wd, "run-" + name),
+                       module], cwd=wd, timeout=900, env=env)
+        ok = rc == 0 and "The outcome is: NoError" in out
+        bad = "The outcome is: Error" in out and "invariant" in out
+        if want_ok and not ok:
+            raise Inconclusive("apalache did not establish %s (%s) of %s:\n%s" % (name, p, module, out[-1500:]))
+        if not want_ok and not bad:
+            raise Inconclusive("apalache: negative variant %s of %s was not refuted (vacuous induction?):\n%s"
+                               % (nxt, module, out[-1500:]))
+        res[name] = "holds" if want_ok else "refuted as expected"
+    r.extra.setdefault("apalache", {})[module] = res
+    shutil.rmtree(wd, ignore_errors=True)
+
+
 def validate_shard(r, idx, trace_file, module, cfg):
     wd = os.path.join(r.dir, "tv-%03d" % idx)
     report = os.path.join(wd, "report.json")
